@@ -134,7 +134,18 @@ JoinWalk(mem, back) == WalkJ(mem, back, PubFirst(mem, back), Fuel)
 (* OverlayDB.NewIterator(prefix): memdb range iterator joined with the store iterator;
    CacheDB.NewIterator(prefix): tx memdb range iterator joined with the OverlayDB iterator *)
 BlkScanImpl(lo, hi) == JoinWalk(Entries(blk, lo, hi), LiveScan(store, lo, hi))
-TxScanImpl(lo, hi)  == JoinWalk(Entries(tx, lo, hi), BlkScanImpl(lo, hi))
+TxScanOf(t, lo, hi) == JoinWalk(Entries(t, lo, hi), BlkScanImpl(lo, hi))
+TxScanImpl(lo, hi)  == TxScanOf(tx, lo, hi)
+
+(* Iterator life cycle.  NewIterator(prefix) fixes the scanned range; First()/Next() produce the walk.  What the model
+   states about other calls made while an iterator is open (between NewIterator and First(), or between two Next()):
+     - reads (Get at either layer, any key) change nothing, so the walk is the one predicted for the state;
+     - a Put/Delete of a key OUTSIDE the scanned range is never visible in the walk (true for a live iterator and for a
+       snapshot iterator alike), while the write itself takes effect: action TScanW = NewIterator; write; walk.
+   Writes inside the range, commits and resets under an open iterator are left unspecified (the memdb iterators are live,
+   the LevelDB iterator is a snapshot; no caller in the code base does it) and are never generated. *)
+Outside(k, lo, hi) == k < lo \/ k > hi
+WVals == {T} \cup {CHOOSE v \in Vals : TRUE}
 
 (* ---------- C11: canonical write sequence of the block layer ----------- *)
 WriteSeq(b) == Entries(b, 1, K)
@@ -186,11 +197,19 @@ BGet(k) == /\ ReadsOn /\ UNCHANGED vars /\ Emit("bget", <<k>>, "", ObsBGet(k), s
 TScan(lo, hi) == /\ ReadsOn /\ UNCHANGED vars /\ Emit("tscan", <<lo, hi>>, "", ObsTScan(lo, hi), store, blk, tx)
 BScan(lo, hi) == /\ ReadsOn /\ UNCHANGED vars /\ Emit("bscan", <<lo, hi>>, "", ObsBScan(lo, hi), store, blk, tx)
 
+(* NewIterator(range) at the tx level; Put/Delete of an out-of-range key; First()/Next()... *)
+TScanW(lo, hi, k, v) ==
+    /\ ReadsOn /\ Outside(k, lo, hi)
+    /\ tx' = [tx EXCEPT ![k] = v] /\ UNCHANGED <<store, batch, bopen, blk>>
+    /\ Log("tput", <<k>>, v)
+    /\ Emit("tscanw", <<lo, hi, k>>, v, TxScanOf(tx', lo, hi), store, blk, tx')
+
 Next == \/ \E k \in Keys : \/ \E v \in Vals \cup {T} : TPut(k, v) \/ BPut(k, v)
                            \/ TGet(k) \/ BGet(k)
         \/ TCommit \/ TReset \/ BReset
         \/ Flush \/ NewBatch \/ CommitTo \/ BatchCommit
         \/ \E r \in Ranges : TScan(r \div 10, r % 10) \/ BScan(r \div 10, r % 10)
+        \/ (EmitOn /\ \E r \in Ranges, k \in Keys, v \in WVals : TScanW(r \div 10, r % 10, k, v))
 
 Spec == Init /\ [][Next]_vars
 View == <<store, batch, bopen, blk, tx>>
@@ -211,7 +230,11 @@ AllRanges == {<<lo, hi>> : lo \in 1..K, hi \in 0..K}
 ScansExact ==       \* the join iterator yields exactly the visible live keys of the range, in order, newest values
     \A r \in AllRanges : /\ BlkScanImpl(r[1], r[2]) = LiveScan(BlkView, r[1], r[2])
                          /\ TxScanImpl(r[1], r[2]) = LiveScan(TxView, r[1], r[2])
-PropC10 == TypeOK /\ ReadsNewest /\ ScansExact
+ScanIgnoresOutside ==      \* a write outside the scanned range, made while the iterator is open, does not show in the walk
+    \A r \in Ranges, k \in Keys, v \in WVals :
+        Outside(k, r \div 10, r % 10) =>
+            TxScanOf([tx EXCEPT ![k] = v], r \div 10, r % 10) = LiveScan(TxView, r \div 10, r % 10)
+PropC10 == TypeOK /\ ReadsNewest /\ ScansExact /\ ScanIgnoresOutside
 
 (* commit applies exactly the upper layer's cells to the layer below and keeps every view; reset discards the layer
    (action property; the step's name is the last entry of the history) *)
